@@ -687,8 +687,10 @@ def axis_level_routes(rep: Report, ix, compiled_order):
         where = f"{fi.module.rel}::{fi.qualname}"
         rep.saw("axis-level ghost-cell routes", f"{c.name} -> {where}")
         bad: dict[str, str] = {}
-        for num_axes, axis in ((1, 0), (2, 0), (2, 1), (3, 1)):
-            for rank in (0, 1):
+        thorough = os.environ.get("PDELINT_TIER") == "thorough"
+        geoms = ((1, 0), (2, 0), (2, 1), (3, 1)) + (((3, 0), (3, 2)) if thorough else ())
+        for num_axes, axis in geoms:
+            for rank in (0, 1, 2) if thorough else (0, 1):
                 for flip in ((False, True) if periodic else (False,)):
                     for mpi in ((False,) if periodic else (False, True)):
                         n_scen += 1
